@@ -5,50 +5,21 @@ From Cfg Require Import Model.Pool Model.PoolSpec Proofs.Pool.
 Import ListNotations.
 Open Scope N_scope.
 
-(* For ALL three pools, ALL sequences of get / mutate / put with arbitrary
-   lengths n >= 0, arbitrary caller mutations and ALL choices of the
-   underlying sync.Pool (any pooled element of the class, or none): every Get
-   returns without panic a buffer with cap >= n and the length contract
-   (len = 0; item buffers: len = n). *)
-Theorem C42_get_size_ok :
-  forall k ops n o, (0 <= n)%Z -> In (n, o) (outs k ops) -> size_ok k n o.
-Proof. exact outs_size_ok. Qed.
-Print Assumptions C42_get_size_ok.
+(* For ALL three pools (byte buffers, byte-slice lists, item buffers), ALL
+   sequences of get / mutate / put with arbitrary lengths n >= 0, arbitrary
+   caller mutations within Go's slice rules (writes, re-slicing up to cap,
+   replacing the slice by any other one) and ALL choices of the underlying
+   sync.Pool (any pooled element of the class, or none): every Get returns,
+   without panic, a buffer with cap >= n that is empty (len = 0; item
+   buffers: len = n and every visible slot zero). *)
+Theorem C42_get_good :
+  forall k ops n o, (0 <= n)%Z -> In (n, o) (outs k ops) -> good k n o.
+Proof. exact outs_good. Qed.
+Print Assumptions C42_get_good.
 
-(* Byte buffers and byte-slice lists: the full property, unconditionally. *)
-Theorem C42_bytes_good :
-  forall k, k <> IB -> forall ops n o, (0 <= n)%Z -> In (n, o) (outs k ops) -> good k n o.
-Proof. exact bytes_good. Qed.
-Print Assumptions C42_bytes_good.
-
-(* Item buffers: the full property holds for every run in which each Put is
-   "covered" (all non-zero slots of the buffer lie below its length when it is
-   put back) ... *)
-Theorem C42_item_good_partial :
-  forall ops, covered_from IB init ops = true ->
-  forall n o, (0 <= n)%Z -> In (n, o) (outs IB ops) -> good IB n o.
-Proof. exact item_good. Qed.
-Print Assumptions C42_item_good_partial.
-
-(* ... which is what writer.go's callers guarantee: they never reassign
-   itemBuf.B and only write below len. *)
-Theorem C42_item_writer_discipline :
-  forall ops, forallb no_reslice_op ops = true -> covered_from IB init ops = true.
-Proof. exact discipline_covered. Qed.
-Print Assumptions C42_item_writer_discipline.
-
-(* Full statement for item buffers ("regardless of what was previously
-   returned to the pool"):
-     forall ops n o, 0 <= n -> In (n,o) (outs IB ops) -> good IB n o
-   is FALSE on the faithful model: putItemBuf clears only B[0:len]. *)
-Theorem C42_item_dirty_refuted :
-  exists ops n o, legal_from IB init ops = true /\ (0 <= n)%Z /\
-                  In (n, o) (outs IB ops) /\ ~ good IB n o.
-Proof. exact item_dirty_refuted. Qed.
-Print Assumptions C42_item_dirty_refuted.
-
-(* The pool invariant behind the above: after any run every pooled buffer sits
-   in an existing class idx with 2^idx <= cap and has len = 0. *)
+(* The pool invariant behind it: after any run every pooled buffer sits in an
+   existing class idx with 2^idx <= cap, has len = 0, its non-zero slots lie
+   inside the backing array, and pooled item buffers are entirely zero. *)
 Theorem C42_pool_inv : forall k ops, Inv k (final_from k init ops).
 Proof. exact pool_inv. Qed.
 Print Assumptions C42_pool_inv.
@@ -78,19 +49,30 @@ Theorem C42_oracle_sound : forall k n o, good_b k n o = true <-> good k n o.
 Proof. exact good_b_iff. Qed.
 Print Assumptions C42_oracle_sound.
 
-(* Non-vacuity: reuse across classes, and the refuting run. *)
+(* History: before /repo commit beefe1b7 putItemBuf cleared only B[0:len];
+   with that Put the property is false (get 4; fill; B = B[:0]; put; get 4
+   returns the stale items).  Found by this check, fixed in /repo. *)
+Theorem C42_item_prefix_clear_refuted :
+  exists s1 s2 o,
+    get IB init 4 None = (s1, ObsBuf 4 4 None) /\
+    get IB (put_item_prefix_clear (mutate (mutate s1 0 MFill) 0 (MReslice 0)) 0) 4 (Some 0) = (s2, o) /\
+    ~ good IB 4 o.
+Proof. exact item_prefix_clear_refuted. Qed.
+Print Assumptions C42_item_prefix_clear_refuted.
+
+(* Non-vacuity: reuse across classes; reuse of an item buffer that was put back re-sliced. *)
 Example C42_reuse_bb :
   outs BB [OGet 5 None; OMut 0 (MReslice 3); OMut 0 MFill; OMut 0 (MSetNew 12 9 true); OPut 0;
            OGet 8 (Some 0); OGet 9 None]
   = [(5%Z, ObsBuf 8 0 None); (8%Z, ObsBuf 12 0 (Some 0)); (9%Z, ObsBuf 16 0 None)].
 Proof. vm_compute. reflexivity. Qed.
-Example C42_covered_item_run :
-  covered_from IB init [OGet 3 None; OMut 0 MFill; OPut 0; OGet 4 (Some 0)] = true /\
-  outs IB [OGet 3 None; OMut 0 MFill; OPut 0; OGet 4 (Some 0)]
+Example C42_item_run :
+  outs IB [OGet 3 None; OMut 0 (MReslice 4); OMut 0 (MWrite 3); OMut 0 (MReslice 3); OPut 0; OGet 4 (Some 0)]
   = [(3%Z, ObsBuf 4 3 None); (4%Z, ObsBuf 4 4 None)].
-Proof. vm_compute. split; reflexivity. Qed.
-Example C42_dirty_item_run :
-  outs IB dirty_witness = [(4%Z, ObsBuf 4 4 None); (4%Z, ObsBuf 4 4 (Some 0))].
+Proof. vm_compute. reflexivity. Qed.
+Example C42_bs_keeps_hidden_slots :
+  outs BS [OGet 4 None; OMut 0 (MReslice 4); OMut 0 MFill; OMut 0 (MReslice 1); OPut 0; OGet 3 (Some 0)]
+  = [(4%Z, ObsBuf 4 0 None); (3%Z, ObsBuf 4 0 (Some 1))].
 Proof. vm_compute. reflexivity. Qed.
 Example C42_bb_negative_panics :
   outs BB [OGet (-4294967296) None] = [((-4294967296)%Z, ObsPanic)].
